@@ -101,6 +101,7 @@ Proof. vm_compute. repeat split; reflexivity. Qed.
 From Coq Require Import ZArith List Bool.
 From Lal Require Import Group.GroupAdmission Group.GroupAdmissionProofs Group.GroupInvariantProofs
   Group.GroupServerTick Group.GroupServerTickProofs.
+From Lal Require Group.GroupServerKeysProofs.
 Import ListNotations.
 
 (* Removal of groups, over every history: at every tick of a running server - whatever its count - the
@@ -185,6 +186,28 @@ Proof.
     [eapply look_read|eapply look_write]; eassumption.
 Qed.
 Print Assumptions c16_idle_verdict.
+
+(* No event other than a tick removes a group or replaces the Group object of a name (all events of
+   the server: arrivals, departures, kicks, relay outcomes, API calls, dispose, media, byte counters). *)
+Theorem c16_only_ticks_remove : forall cf ts te s g,
+  (forall c, te <> TEv (ETick c)) -> get_group (t_st ts) s = Some g ->
+  exists g', get_group (t_st (fst (fst (tstep fixed_tree cf ts te)))) s = Some g' /\ g_id g' = g_id g.
+Proof.
+  intros cf ts te s g Hnt Hg. destruct te as [e0|n k|s0 i k].
+  - assert (H0 : forall c, e0 <> ETick c) by (intros c Hc; apply (Hnt c); rewrite Hc; reflexivity).
+    rewrite (tstep_TEv_state fixed_tree cf ts e0 H0). apply GroupServerKeysProofs.only_ticks_remove; assumption.
+  - destruct (bytes_keep_state fixed_tree cf ts n k) as [E _]. rewrite E. exists g. split; [exact Hg|reflexivity].
+  - destruct (att_bytes_keep_state fixed_tree cf ts s0 i k) as [E _]. rewrite E. exists g. split; [exact Hg|reflexivity].
+Qed.
+Print Assumptions c16_only_ticks_remove.
+
+(* ... and the identity of the Group a removed (or new) name gets - the next one, c16_removed_name_fresh -
+   is larger than the identity of every Group registered after any history: a new Group object. *)
+Theorem c16_new_group_identity_fresh : forall cf h s g,
+  let st := t_st (fst (trun fixed_tree cf tinit h)) in
+  get_group st s = Some g -> g_id g < st_gid st + 1.
+Proof. intros cf h s g st. exact (GroupServerKeysProofs.new_group_identity_fresh fixed_tree cf st s g (trun_reachable cf h)). Qed.
+Print Assumptions c16_new_group_identity_fresh.
 
 (* non-vacuity: a publisher attaches and sends nothing for two sweeps: disconnected at the second one,
    one stop when its shell reports, the group removed at the following tick, and the next publisher of
